@@ -89,6 +89,7 @@ def c09_run_origin_only(res):
     res.distinct += n
     mprop.finish_engine(res, E)
     check_rejected_builder(res)
+    check_cli(res)
 
 
 def check_rejected_builder(res):
@@ -148,4 +149,13 @@ def check_rejected_builder(res):
             res.notes.append("RejectedResourcesBuilder::finalize has another shape than pop/push (%s); the native replay over all queue rotations passed" % what)
         else:
             res.inconclusive.append("RejectedResourcesBuilder::finalize: %s - native replay could not be built" % what)
+    mprop.finish_engine(res, E)
+
+
+def check_cli(res):
+    """--unsafe-vrps on the command line is the policy in force whenever given (slice of apply_arg_matches)."""
+    import c06
+    E = mprop.engine(res)
+    c06.check_cli_policy(res, E, name="unsafe_vrps", flag="--unsafe-vrps",
+                         consequence="an explicit --unsafe-vrps reject does not replace the configured accept/warn, so overlapping VRPs stay")
     mprop.finish_engine(res, E)
